@@ -213,12 +213,23 @@ Lemma err_not_tokens r e : is_tokens (err r e) = false.
 Proof. destruct r; reflexivity. Qed.
 
 (* What one step can do. *)
+(* an invalid_scope refusal of a refresh is never "just an error": see T_scope *)
+Definition not_scope_refusal (o : op) (x : out) : Prop :=
+  match o, x with
+  | TokenRefresh _ _ _ _, OErr _ e => String.eqb e E_scope = false
+  | _, _ => True
+  end.
+
 Inductive trans (s : st) : op -> st -> out -> Prop :=
-| T_same o x : (match x with OAuthz None | OLogin false | OCbErr | OCbFail | OErr _ _ => True | _ => False end) -> trans s o s x
-| T_authorize cl uri scopes nonce chal :
-    trans s (Authorize cl uri scopes nonce chal)
+| T_same o x : (match x with OAuthz None | OLogin false | OCbErr | OCbFail | OErr _ _ => True | _ => False end) ->
+    not_scope_refusal o x -> trans s o s x
+| T_scope pl cr n scopes t :
+    find_rt s n = Some t -> narrowed scopes (r_scopes t) = None ->
+    trans s (TokenRefresh pl cr (Some n) scopes) s (OErr 4 E_scope)
+| T_authorize cl uri scopes nonce chal ax :
+    trans s (Authorize cl uri scopes nonce chal ax)
       {| reqs := {| q_id := S (next s); q_client := cl; q_uri := uri; q_scopes := scopes; q_nonce := nonce;
-                    q_chal := chal; q_done := false; q_sub := ""; q_auth := 0 |} :: reqs s;
+                    q_chal := chal; q_done := false; q_sub := hinted_sub ax; q_auth := 0; q_extra := ax |} :: reqs s;
          codes := codes s; rtoks := rtoks s; next := S (next s); ncode := ncode s; norefresh := norefresh s |}
       (OAuthz (Some (S (next s))))
 | T_login n sub stamp q :
@@ -248,9 +259,46 @@ Inductive trans (s : st) : op -> st -> out -> Prop :=
       {| reqs := reqs s; codes := codes s; rtoks := rtoks s; next := next s; ncode := ncode s;
          norefresh := cl :: norefresh s |} ODone.
 
-Lemma T_err s o r e : trans s o s (err r e).
-Proof. apply T_same. destruct r; exact I. Qed.
-Ltac terr := first [apply T_err | (apply T_same; exact I)].
+Lemma T_err s o r e : not_scope_refusal o (err r e) -> trans s o s (err r e).
+Proof. intro Hn. apply T_same; [destruct r; exact I | exact Hn]. Qed.
+Lemma nsr_err pl cr rt sc r e : String.eqb e E_scope = false -> not_scope_refusal (TokenRefresh pl cr rt sc) (err r e).
+Proof. intro He. destruct r; exact He. Qed.
+Ltac nsr := first [exact I | (apply nsr_err; first [reflexivity | eassumption]) | (cbn; first [exact I | reflexivity | eassumption])].
+Ltac terr := first [apply T_err; nsr | (apply T_same; [exact I | nsr])].
+
+(* the errors of client resolution are never invalid_scope *)
+Lemma assertion_client_err v e : assertion_client cf v = inr e -> String.eqb e E_scope = false.
+Proof.
+  unfold assertion_client. destruct v as [iss|]; [|intros [= <-]; reflexivity].
+  destruct (find_client cf iss) as [c|]; [|intros [= <-]; reflexivity].
+  destruct (c_auth c); intros [= <-]; reflexivity.
+Qed.
+Lemma secret_ok_err c sec e : secret_ok cf c sec = Some e -> String.eqb e E_scope = false.
+Proof.
+  unfold secret_ok. destruct (match c_auth c with AM_Post => negb (f_post cf) | _ => false end); [intros [= <-]; reflexivity|].
+  destruct (String.eqb sec (c_secret c)); [discriminate | intros [= <-]; reflexivity].
+Qed.
+Lemma legacy_client_err cr e : legacy_client cf cr = inr e -> String.eqb e E_scope = false.
+Proof.
+  unfold legacy_client. destruct (cr_assert cr) as [v|].
+  { destruct (f_pkjwt cf); [apply assertion_client_err | intros [= <-]; reflexivity]. }
+  destruct (cred_id_sec cr) as [id sec]. destruct (String.eqb id ""); [intros [= <-]; reflexivity|].
+  destruct (find_client cf id) as [c|]; [|intros [= <-]; reflexivity].
+  destruct (c_auth c); try (intros [= <-]; reflexivity); try discriminate.
+  all: destruct (secret_ok cf c sec) eqn:Hs; [intros [= <-]; eapply secret_ok_err; eauto | discriminate].
+Qed.
+Lemma prov_refresh_client_err s cr e : prov_refresh_client cf s cr = inr e -> String.eqb e E_scope = false.
+Proof.
+  unfold prov_refresh_client. destruct (cr_assert cr) as [v|].
+  { destruct (f_pkjwt cf); [|intros [= <-]; reflexivity].
+    destruct (assertion_client cf v) as [c|e0] eqn:Ha; [|intros [= <-]; eapply assertion_client_err; eauto].
+    destruct (has_refresh s c); [discriminate | intros [= <-]; reflexivity]. }
+  destruct (cred_id_sec cr) as [id sec].
+  destruct (find_client cf id) as [c|]; [|intros [= <-]; reflexivity].
+  destruct (has_refresh s c); cbn [negb]; [|intros [= <-]; reflexivity].
+  destruct (c_auth c); try (intros [= <-]; reflexivity); try discriminate.
+  all: destruct (secret_ok cf c sec) eqn:Hs; [intros [= <-]; eapply secret_ok_err; eauto | discriminate].
+Qed.
 
 Lemma finish_refresh_trans pl r s cr n scopes t c :
   find_rt s n = Some t -> find_client cf (c_id c) = Some c -> has_refresh s c = true -> f_refresh cf = true ->
@@ -260,7 +308,7 @@ Proof.
   intros Hrt Hf Hr Hfl Hp. unfold finish_refresh.
   destruct (String.eqb (c_id c) (r_client t)) eqn:E; cbn [negb]; [|terr].
   apply String.eqb_eq in E.
-  destruct (narrowed scopes (r_scopes t)) as [sc|] eqn:Hn; [|terr].
+  destruct (narrowed scopes (r_scopes t)) as [sc|] eqn:Hn; [|destruct r; eapply T_scope; eauto].
   rewrite E in Hf, Hp. now apply T_refresh.
 Qed.
 
@@ -317,14 +365,16 @@ Proof.
     destruct r.
     + unfold prov_refresh. destruct (f_refresh cf) eqn:Hfl; cbn [negb]; [|intros [= <- <-]; terr].
       destruct rt as [n|]; [|intros [= <- <-]; terr].
-      destruct (prov_refresh_client cf s cr) as [c|e] eqn:Hc; [|intros [= <- <-]; terr].
+      destruct (prov_refresh_client cf s cr) as [c|e] eqn:Hc;
+        [|intros [= <- <-]; apply prov_refresh_client_err in Hc; terr].
       apply prov_refresh_client_inl in Hc as [Hf [Hp Hr]].
       destruct (find_rt s n) as [t|] eqn:Hrt; [|intros [= <- <-]; terr].
       intro Hi.
       replace s' with (fst (finish_refresh Provider s t c scopes)) by now rewrite Hi.
       replace x with (snd (finish_refresh Provider s t c scopes)) by now rewrite Hi.
       now apply finish_refresh_trans.
-    + unfold legacy_refresh. destruct (legacy_client cf cr) as [c|e] eqn:Hc; [|intros [= <- <-]; terr].
+    + unfold legacy_refresh. destruct (legacy_client cf cr) as [c|e] eqn:Hc;
+        [|intros [= <- <-]; apply legacy_client_err in Hc; terr].
       apply legacy_client_inl in Hc as [Hf Hp].
       destruct (has_refresh s c) eqn:Hr; cbn [negb]; [|intros [= <- <-]; terr].
       destruct rt as [n|]; [|intros [= <- <-]; terr].
@@ -408,19 +458,19 @@ Proof.
       | _ => (s0, x0) end) = (s', x) -> trans H cf s (TokenCode pl (Some m) cr code uri ver) s' x).
   { intros s0 x0 E Hx. pose proof (code_step_trans H cf pl (Some m) _ _ _ _ _ _ _ _ E) as Ht.
     destruct x0; try (injection Hx as <- <-; exact Ht).
-    destruct (fault_reached m t); injection Hx as <- <-; [apply T_same, err_inert | exact Ht]. }
+    destruct (fault_reached m t); injection Hx as <- <-; [apply T_same; [apply err_inert | exact I] | exact Ht]. }
   destruct m.
   - (* the code does not resolve *)
     destruct (code_step H cf r (no_codes s) cr code uri ver) as [s0 x0] eqn:E. cbn [snd]. intros [= <- <-].
     apply (code_step_trans H cf pl (Some SM_AuthRequestByCode)) in E.
     apply trans_code_cases in E as [[_ Hx] | [cd [q [c [_ [Hq _]]]]]].
-    + apply T_same. exact Hx.
+    + apply T_same; [exact Hx | exact I].
     + unfold code_req in Hq. cbn in Hq. discriminate.
   - (* no client resolves *)
     destruct (code_step H (no_clients cf) r s cr code uri ver) as [s0 x0] eqn:E. cbn [snd]. intros [= <- <-].
     apply (code_step_trans H (no_clients cf) pl (Some SM_GetClientByClientID)) in E.
     apply trans_code_cases in E as [[_ Hx] | [cd [q [c [_ [_ [Hc _]]]]]]].
-    + apply T_same. exact Hx.
+    + apply T_same; [exact Hx | exact I].
     + unfold find_client in Hc. cbn in Hc. discriminate.
   - destruct (code_step H cf r s cr code uri ver) as [s0 x0] eqn:E. intro Hx. eapply Hgen; eauto. destruct x0; exact Hx.
   - destruct (code_step H cf r s cr code uri ver) as [s0 x0] eqn:E. intro Hx. eapply Hgen; eauto. destruct x0; exact Hx.
@@ -431,14 +481,14 @@ Qed.
 
 Lemma step_trans r s o s' x : step H cf r s o = (s', x) -> trans H cf s o s' x.
 Proof.
-  destruct o as [cl uri scopes nonce chal | n sub stamp | n | pl f cr code uri ver | pl cr rt scopes | cl]; cbn [step].
+  destruct o as [cl uri scopes nonce chal ax | n sub stamp | n | pl f cr code uri ver | pl cr rt scopes | cl]; cbn [step].
   - (* authorize *)
-    unfold do_authorize. destruct (find_client cf cl); [|intros [= <- <-]; now apply T_same].
-    destruct (string_in uri (c_redirects c) && negb (is_nil scopes)); intros [= <- <-];
-      [apply T_authorize | now apply T_same].
-  - unfold do_login. destruct (find_req s n) eqn:Hq; intros [= <- <-]; [eapply T_login; eauto | now apply T_same].
-  - unfold do_callback. destruct (find_req s n) as [q|] eqn:Hq; [|intros [= <- <-]; now apply T_same].
-    destruct (q_done q) eqn:Hd; intros [= <- <-]; [eapply T_callback; eauto | now apply T_same].
+    unfold do_authorize. destruct (find_client cf cl); [|intros [= <- <-]; (apply T_same; exact I)].
+    destruct (string_in uri (c_redirects c) && negb (is_nil scopes) && extra_ok ax); intros [= <- <-];
+      [apply T_authorize | (apply T_same; exact I)].
+  - unfold do_login. destruct (find_req s n) eqn:Hq; intros [= <- <-]; [eapply T_login; eauto | (apply T_same; exact I)].
+  - unfold do_callback. destruct (find_req s n) as [q|] eqn:Hq; [|intros [= <- <-]; (apply T_same; exact I)].
+    destruct (q_done q) eqn:Hd; intros [= <- <-]; [eapply T_callback; eauto | (apply T_same; exact I)].
   - rewrite read_grant_ok, read_field_ok. destruct f as [m|].
     + apply code_fault_trans.
     + apply code_step_trans.
